@@ -183,14 +183,23 @@ async fn inject(f: Fault, w: &FaultWorld, target: &Target, stalled: &mut Vec<Raw
         }
         Fault::Reset => {
             if let Target::Tcp(a) = target {
-                let s = tokio::net::TcpStream::connect(a).await.map_err(|e| format!("fault connect: {e}"))?;
-                let std = s.into_std().map_err(|e| e.to_string())?;
-                let sock = socket2::Socket::from(std);
-                let _ = sock.set_linger(Some(Duration::from_secs(0)));
-                let mut s2 = &sock;
-                use std::io::Write;
-                let _ = s2.write(b"GET /r/1/x HTTP/1.1\r\nhost: a");
-                drop(sock);
+                // blocking connects on the runtime's own thread, no await in between: the server task cannot run
+                // before the connections have been reset, so they are reset while still in the listen backlog
+                // (a burst of four; one of them after an ordinary async connect for the "accepted first" order)
+                for k in 0..4 {
+                    let std = if k == 3 {
+                        let s = tokio::net::TcpStream::connect(a).await.map_err(|e| format!("fault connect: {e}"))?;
+                        s.into_std().map_err(|e| e.to_string())?
+                    } else {
+                        std::net::TcpStream::connect(a).map_err(|e| format!("fault connect: {e}"))?
+                    };
+                    let sock = socket2::Socket::from(std);
+                    let _ = sock.set_linger(Some(Duration::from_secs(0)));
+                    let mut s2 = &sock;
+                    use std::io::Write;
+                    let _ = s2.write(b"GET /r/1/x HTTP/1.1\r\nhost: a");
+                    drop(sock);
+                }
             }
         }
         Fault::Garbage => {
